@@ -79,6 +79,8 @@ def make_config(rng, truth, k):
         which = [['rvint'], ['packedpid'], ['rvint', 'packedpid']][int(rng.integers(0, 3))]
         for w in which:
             sub[w] = True
+        if AB == 'true' and k % 2 == 1 and (k // 1000) % 2 == 0:
+            sub = True  # "everything": both subsamples, raw rvint and packedpid
         unpack_bits = False
         fields = 'all'
     else:
@@ -87,7 +89,17 @@ def make_config(rng, truth, k):
         else:
             sub = dict(A=True, B=True) if AB == 'true' else dict(AB)
             c = int(rng.integers(0, 9))
-            if c == 0:
+            if (k // 7) % 5 == 3:
+                c = 9 + (k // 35) % 4  # the documented defaults and opt-outs
+            if c == 9:
+                sub['pos'] = False  # -> velocities only
+            elif c == 10:
+                sub['vel'] = False  # -> positions only
+            elif c == 11:
+                sub.update(pos=False, vel=False)  # nothing left: documented fallback to rv
+            elif c == 12:
+                sub = dict(pid=True) if k % 2 else dict(pos=True, pid=True)  # neither A nor B named: subsample A is assumed
+            elif c == 0:
                 sub['rv'] = True
             elif c == 1:
                 sub.update(rv=True, pid=True)
@@ -164,15 +176,24 @@ def one_tree(run, rng, k, nconf):
             run.count('loads')
             if err is not None:
                 run.count('load_errors')
-                run.extra.setdefault('load_error_examples', [])
-                if len(run.extra['load_error_examples']) < 5:
-                    run.extra['load_error_examples'].append(dict(error=f'{type(err).__name__}: {err}'[:200], **desc))
+                run.violation('subsample-load-fails', dict(error=f'{type(err).__name__}: {err}'[:200], **desc))  # every generated configuration is a documented one
                 continue
             run.count('loads_ok')
             if nt:
                 run.nt((k, c))
             if k < 2 and c < 2:
                 run.sample(desc)
+            # which of pos / vel come back follows the documented defaults of the subsample dict
+            sb = kw['subsamples']
+            if not kw.get('passthrough'):
+                if sb is True or sb.get('rv'):
+                    want_pv = {'pos', 'vel'}
+                else:
+                    want_pv = {f for f in ('pos', 'vel') if sb.get(f)}
+                    if not want_pv and not sb.get('pid'):
+                        want_pv = {f for f in ('pos', 'vel') if sb.get(f) is not False} or {'pos', 'vel'}
+                got_pv = {f for f in ('pos', 'vel') if f in cat.subsamples.colnames}
+                run.count('documented_pos_vel_selection_' + ('followed' if got_pv == want_pv else 'not_followed'))  # informational: the statement is about whose particles the rows are, not about which columns are loaded
             if catoracle.check_subsamples(run, cat, truth, slabs, kw['cleaned'], resolved_AB(kw['subsamples']), masks=masks, desc=desc, passthrough=bool(kw.get('passthrough'))):
                 if run.too_many():
                     return
